@@ -178,7 +178,8 @@ SRC_THEOREMS = {
                'pack_u4s', 'poll_pack'],
     'Blocks': ['addAll_fresh', 'blocks_loop', 'objs_append', 'padzero_append', 'padzero_decoded', 'unpack_objs', 'valueAt_objs', 'decode_ints', 'counted_eq',
                'blk_gnss', 'blk_esfla', 'blk_esfstatus', 'quot_len', 'blk_monver'],
-    'Fields': ['contains_iff', 'setitem_fresh', 'inv_init', 'fields_add', 'add_inv', 'addMany_inv', 'sorted_is_added', 'sorted_reachable', 'add_names', 'get_added'],
+    'Fields': ['contains_iff', 'setitem_fresh', 'inv_init', 'fields_add', 'add_inv', 'addMany_inv', 'sorted_is_added', 'sorted_reachable', 'add_names', 'get_added',
+               'setattr_field', 'setattr_other', 'setattr_early', 'getattr_field', 'getattr_other', 'getattr_missing', 'setitem_value_only', 'getattr_after_setattr'],
     'Factory': ['getitem_setitem', 'getitem_err', 'lookupR_register', 'agree_empty', 'fac_register', 'fac_build_with_data', 'fac_build'],
     'Gpsd': ['g_parse_version', 'g_devices_loop', 'g_parse_devices', 'g_line', 'g_lines', 'g_parse_gpsd_msg', 'absG_init', 'g_ready'],
     'Server': ['srv_check_poll', 'srv_check_ack_nak', 'srv_check_mga', 'srv_send', 'srv_wait', 'srv_set', 'srv_set_mga',
